@@ -31,7 +31,7 @@ from ..tok import S
 
 PID = "C14"
 COQ_HEADER = ("From Coq Require Import NArith List Bool.\nImport ListNotations.\n"
-              "From SK Require Import lib.Tok model.C14_Model model.C14_CrnModel model.C14_WorkersModel.\nLocal Open Scope N_scope.\n")
+              "From SK Require Import lib.Tok model.C14_Model model.C14_CrnModel model.C14_WorkersModel model.C14_BenchModel.\nLocal Open Scope N_scope.\n")
 SHARD = 40
 IMPL_TIMEOUT = 1500
 COQ_TIMEOUT = 900
@@ -185,6 +185,29 @@ def _run_batch(case, T):
         if T is not None:
             T.register(g, "R:" + r)
         pool.append(g)
+    if case.get("bench"):
+        # the Benchmark facade: entries are reaction dicts; one fit call = forward over the reactant sides + backward over the product
+        # sides on the SAME object (host_key re-pointed in between)
+        from synkit.Synthesis.Reactor.benchmark import Benchmark
+        data = [{"rx": s_, "row": i} for i, s_ in enumerate(case["subs"])]
+        bm = Benchmark(data, "rx", cache_enabled=case["cache"], cache_maxsize=case["max"], dedupe=case["dedupe"],
+                       strategy=case.get("strategy", "bt"), explicit_h=case.get("explicit_h", True),
+                       implicit_temp=case.get("implicit_temp", False), enable_logging=True)
+        assert len(bm) == len(data) and "Benchmark host_key" in bm.describe()
+        outs = []
+        for c in case["calls"]:
+            rules = [pool[o] if o is not None else r for r, o in zip(c["rules"], c["robj"])]
+            res = bm.fit(rules)
+            assert len(res) == len(data) and all(a is b for a, b in zip(res, data))          # the caller's own dicts, in order
+            assert all(d["fw_count"] == len(d["fw"]) and d["bw_count"] == len(d["bw"]) for d in res)
+            assert all(d["rx"] == s_ and d["row"] == i and d["r"] + ">>" + d["p"] == s_ for i, (d, s_) in enumerate(zip(res, case["subs"])))
+            outs.append([list(d["fw"]) for d in res])
+            outs.append([list(d["bw"]) for d in res])
+            del rules
+        if T is not None:
+            for g in pool:
+                T.release(T.oid_of(g))
+        return bm, outs, pool
     if case.get("dict_entries"):          # entries given as dicts with the SMILES under host_key (second positional parameter)
         data = [{"smi": s_, "row": i, "note": None} for i, s_ in enumerate(case["subs"])]
         br_ = BatchReactor(data, "smi", cache_enabled=case["cache"], cache_maxsize=case["max"],
@@ -491,6 +514,14 @@ def coq_case(case):
         return "run_hist %s %s %s" % (_cfg(case), tb, tr)
     # batch: the program description
     cont = {s: i for i, s in enumerate(side["contents"])}
+    if case.get("bench"):
+        fits = []
+        for c in case["calls"]:
+            rs = clist([("RObj %s" % cN(o)) if o is not None else ("RStr %s" % cN(cont["R:" + r])) for r, o in zip(c["rules"], c["robj"])])
+            # (a side the implementation never turned into a graph has no content number: 999999999 never equals one)
+            fits.append(cpair(cpair(rs, clist([cN(cont.get("S:" + s_.split(">>", 1)[0], 999999999)) for s_ in case["subs"]])),
+                              clist([cN(cont.get("S:" + s_.split(">>", 1)[1], 999999999)) for s_ in case["subs"]])))
+        return "run_bench %s %s %s %s %s" % (_cfg(case), tb, clist([cN(cont["R:" + r]) for r in case.get("pool", [])]), clist(fits), tr)
     pool = clist([cN(cont["R:" + r]) for r in case.get("pool", [])])
     calls = []
     for c in case["calls"]:
@@ -546,6 +577,18 @@ def _oracle_hist(case):
     return fails
 
 
+def _virtual_calls(case):
+    """the (rules, direction, entry strings) of every BatchReactor.fit the case performs, in order (a Benchmark.fit = two of them)"""
+    out = []
+    for c in case["calls"]:
+        if case.get("bench"):
+            out.append((c["rules"], False, [s_.split(">>", 1)[0] for s_ in case["subs"]]))
+            out.append((c["rules"], True, [s_.split(">>", 1)[1] for s_ in case["subs"]]))
+        else:
+            out.append((c["rules"], c["inv"], list(case["subs"])))
+    return out
+
+
 def _oracle_batch(case):
     """BatchReactor.fit output per entry == the rules applied to that entry alone (fresh objects, no batch,
     no cache), flattened in rule order and de-duplicated keeping first occurrences."""
@@ -563,19 +606,20 @@ def _oracle_batch(case):
         T.remove()
     fails = []
     memo = {}
-    for ci, (c, call_out) in enumerate(zip(case["calls"], outs)):
-        for ei, (s, got) in enumerate(zip(case["subs"], call_out)):
+    for ci, ((rules_, inv_, subs_), call_out) in enumerate(zip(_virtual_calls(case), outs)):
+        for ei, (s, got) in enumerate(zip(subs_, call_out)):
             flat = []
-            for r in c["rules"]:
-                k = (s, r, c["inv"])
+            for r in rules_:
+                k = (s, r, inv_)
                 if k not in memo:
-                    memo[k] = _stub("S:" + s, "R:" + r, c["inv"]) if stub else _single_rule(s, r, c["inv"], case)
+                    memo[k] = _stub("S:" + s, "R:" + r, inv_) if stub else _single_rule(s, r, inv_, case)
                 flat += memo[k]
             want = _dedupe_ref(flat) if case["dedupe"] else flat
             if got != want:
                 fails.append(dict(clause="batch-equals-single",
-                                  detail="call %d entry %d (%s): batch gave %d result(s) %r..., the entry alone gives %d %r..."
-                                  % (ci, ei, s[:60], len(got), got[:2], len(want), want[:2])))
+                                  detail="%scall %d entry %d (%s, %s): batch gave %d result(s) %r..., the entry alone gives %d %r..."
+                                  % ("Benchmark: fit " if case.get("bench") else "", ci, ei, s[:60], "backward" if inv_ else "forward",
+                                     len(got), got[:2], len(want), want[:2])))
                 if len(fails) >= 3:
                     return fails
     return fails
@@ -1081,6 +1125,21 @@ def gen_cases(tier, rng):
                                                            dict(rules=list(rules_), robj=[None] * len(rules_), inv=True)],
                           pool=[], cache=True, max=2, dedupe=True, alloc="lifo", aseed=1, gc_each=True, exec="stub",
                           dict_entries=bool(len(subs_) % 2)))
+    # -- the Benchmark facade (forward over the reactant sides, backward over the product sides, on one object): stub and real reactor
+    for k in range(10 if q else 80):
+        c = _gen_batch(rng, us, ec, "stub" if k % 5 else "real", rng.randrange(2, 9 if q else 20), rng.randrange(1, 4), ncalls=rng.choice([1, 1, 2]))
+        idx = [rng.randrange(len(us)) for _ in range(max(2, len(c["subs"]) // 2))]
+        c["subs"] = [us[rng.choice(idx)] for _ in c["subs"]]                 # whole reactions; repeated entries
+        if rng.random() < 0.4:                                              # an entry whose two sides are the same molecule
+            j = rng.randrange(len(c["subs"]))
+            side_ = c["subs"][j].split(">>")[0]
+            c["subs"][j] = side_ + ">>" + side_
+        c.update(bench=True, dict_entries=False)
+        c.pop("strategy", None)
+        for cl in c["calls"]:
+            cl["inv"] = False
+            cl.pop("tuple_rules", None)
+        cases.append(c)
     # -- batches, real reactor
     for k in range(10 if q else 80):
         cases.append(_gen_batch(rng, us, ec, "real", rng.randrange(4, 16 if q else 40), rng.randrange(1, 4), ncalls=rng.choice([1, 1, 2])))
